@@ -176,6 +176,7 @@ def run(ctx):
     child_in_rawtext_rule(ctx)
     attr_key_rule(ctx)
     doctype_rule(ctx)
+    doctype_evaluated(ctx)
     comment_rule(ctx)
     from . import c07
     c07.declare(ctx)
@@ -396,6 +397,48 @@ def cr_and_leading_lf(ctx):
                     setters[tid] = a.value
                 elif tid in copies:
                     setters[copies[tid]] = a.value
+    # the flag lives for exactly one token: whatever the start-tag arm stores must not reach the text arm's read after a token
+    # other than the one directly following the start tag (an end tag, a comment: `<pre></pre>\\nx`, `<pre><!--c-->\\nx`)
+    if setters:
+        loop = next((n for n in cfg.nodes if n.kind == "loopiter" and isinstance(n.ast, ast.For) and norm(n.ast.iter) == "treewalker"), None)
+        set_nodes = [n for n in cfg.stmt_nodes() if n.kind == "stmt" and isinstance(n.ast, ast.Assign) and len(n.ast.targets) == 1 and
+                     isinstance(n.ast.targets[0], ast.Name) and (n.ast.targets[0].id in flags or n.ast.targets[0].id in copies) and
+                     any(x is n.ast for st in starts[0].body for x in ast.walk(st))]
+        read_nodes = [n for n in cfg.stmt_nodes() if n.kind == "test" and any(isinstance(x, ast.Name) and x.id in flags for x in ast.walk(n.ast)) and
+                      any(x is n.ast for st in arm.body for x in ast.walk(st))]
+        if loop is None or not set_nodes or not read_nodes:
+            r.idiom("S11", False, "flag-lives-one-token", "%s:%d" % (REL, arm.lineno), "the life time of the after-start-tag flag was not recognised")
+        else:
+            survived = None
+            seen = set()
+            work = [(set_nodes[0], frozenset([set_nodes[0].ast.targets[0].id]), 0)]
+            while work and survived is None:
+                node, taint, crossings = work.pop()
+                for nxt, lab in node.succ:
+                    t, c = set(taint), crossings
+                    if nxt.kind == "loopiter" and nxt is loop:
+                        c += 1
+                        if c > 2:
+                            continue
+                    if nxt.kind == "stmt" and isinstance(nxt.ast, ast.Assign) and len(nxt.ast.targets) == 1 and isinstance(nxt.ast.targets[0], ast.Name):
+                        tgt = nxt.ast.targets[0].id
+                        if isinstance(nxt.ast.value, ast.Name) and nxt.ast.value.id in t:
+                            t.add(tgt)
+                        elif nxt is not set_nodes[0] or c > 0:
+                            t.discard(tgt)
+                    if not t:
+                        continue
+                    if nxt in read_nodes and c >= 2 and any(isinstance(x, ast.Name) and x.id in t for x in ast.walk(nxt.ast)):
+                        survived = nxt
+                        break
+                    key = (nxt.id, frozenset(t), c)
+                    if key not in seen:
+                        seen.add(key)
+                        work.append((nxt, frozenset(t), c))
+            r.check("S11", survived is None, "flag-lives-one-token", "%s:%d" % (REL, set_nodes[0].lineno),
+                    "what the start-tag arm stores in `%s` can still be seen by the text arm two tokens later: a token that is not text (an end tag, "
+                    "a comment) does not clear it, so `<pre></pre>\\nx` / `<textarea></textarea>\\n` / `<pre><!--c-->\\nx` get an extra newline that "
+                    "no parser drops" % set_nodes[0].ast.targets[0].id)
     html_ns = "http://www.w3.org/1999/xhtml"
     svg_ns = "http://www.w3.org/2000/svg"
     for elem, ens in (("pre", html_ns), ("textarea", html_ns), ("listing", html_ns), ("textarea", None), ("div", html_ns), ("textarea", svg_ns)):
@@ -583,6 +626,66 @@ def doctype_rule(ctx):
                     "%s is written inside %s without being checked for that quote character: a quote in it ends the "
                     "identifier early and no error is reported" % (ident, "a literal double quote" if lit_quote else "quotes"),
                     detail={"identifier": ident, "checked": ok})
+
+
+def doctype_evaluated(ctx):
+    """S8 (evaluated): the doctype arm is run for representative identifiers and both settings of the quote_char option; the text
+    it writes is read back the way a tokenizer does (identifier = up to the next occurrence of the delimiter that opened it) and must
+    give the identifiers back, or an error must have been reported.  (A double quote inside the public identifier is the known
+    finding of the structural S8 instance and is left out here.)"""
+    import re as _re
+    from ..partition import MiniInterp, Opaque
+    r = ctx.r
+    ce = ctx.ce
+    f, cfg = serialize_cfg(ctx)
+    arm = next((n for n in ast.walk(f.node) if isinstance(n, ast.If) and isinstance(n.test, ast.Compare) and norm(n.test.left) == "type" and
+                {c.value for c in ast.walk(n.test.comparators[0]) if isinstance(c, ast.Constant)} == {"Doctype"}), None)
+    if arm is None:
+        r.idiom("S8", False, "doctype-ids-read-back", f.where, "serialize: the arm for doctype tokens was not found")
+        return
+    for qc in ('"', "'"):
+        bad = []
+        undecided = None
+        for pub in ("", "pub", "p'ub"):
+            for sysid in ("", "sys", 's"ys', "s'ys", "s\"y's"):
+                out, errs = [], []
+
+                def hook(node, local, qc=qc):
+                    t = norm(node)
+                    if t == "self.quote_char":
+                        return qc
+                    if isinstance(node, ast.Call) and t.startswith(("self.encodeStrict(", "self.encode(")) and len(node.args) == 1:
+                        return ce.eval(node.args[0], f.module, local)
+                    return NotImplemented
+
+                def stmt_hook(st, o, interp):
+                    if isinstance(st, ast.Expr) and isinstance(st.value, ast.Yield):
+                        out.append(interp.eval_expr(st.value.value, o.env))
+                        return False
+                    if isinstance(st, ast.Expr) and isinstance(st.value, ast.Call) and norm(st.value.func) == "self.serializeError":
+                        errs.append(norm(st.value))
+                        return False
+                    return NotImplemented
+                try:
+                    MiniInterp(ce, f.module, expr_hook=hook, stmt_hook=stmt_hook).run(
+                        arm.body, {"type": "Doctype", "token": {"type": "Doctype", "name": "html", "publicId": pub, "systemId": sysid}, "self": Opaque("self")})
+                except Exception as e:      # noqa: BLE001
+                    undecided = str(e)[:80]
+                    break
+                text = "".join(x for x in out if isinstance(x, str))
+                m = _re.match(r"<!DOCTYPE html(?: PUBLIC (['\"])((?:(?!\1).)*)\1)?(?: SYSTEM)?(?: (['\"])((?:(?!\3).)*)\3)?>$", text, _re.S)
+                got = (m.group(2) or "", m.group(4) or "") if m else None
+                if got != (pub, sysid) and not errs:
+                    bad.append((pub, sysid, text))
+            if undecided:
+                break
+        key = "doctype-ids-read-back[quote_char=%s]" % qc
+        if undecided:
+            r.idiom("S8", False, key, "%s:%d" % (REL, arm.lineno), "the doctype arm is not decidable (%s)" % undecided)
+            continue
+        r.check("S8", not bad, key, "%s:%d" % (REL, arm.lineno),
+                "with quote_char=%r the doctype (public %r, system %r) is written as %s, which does not read back as these identifiers, and no "
+                "error is reported (%d such cells)" % ((qc,) + (bad[0] if bad else ("", "", "")) + (len(bad),)), detail={"cells_wrong": len(bad)})
 
 
 def comment_rule(ctx):
